@@ -659,6 +659,33 @@ def to_calls(doc, rng, start_flavours=True, explicit_eq=0.5, binary=0.0):
     return ";".join(calls) if calls else "-"
 
 
+def map_scalars(doc, fn):
+    """rebuild doc with every scalar s replaced by fn(s, role); role in key / value / elem / mkey / tail / pvalue"""
+    def val(v, role):
+        if isinstance(v, S):
+            return fn(v, role)
+        if isinstance(v, Hdr):
+            return Hdr(v.name, val(v.value, role))
+        if isinstance(v, Obj):
+            return Obj(items(v.items), [fn(s, "tail") for s in v.tail])
+        if isinstance(v, Arr):
+            return Arr([e if isinstance(e, Ghost) else val(e, "elem") for e in v.elems],
+                       [fn(e, "elem") if isinstance(e, S) else Field(fn(e.key, "mkey"), e.op, val(e.value, "value")) for e in v.mixed])
+        return v
+
+    def items(its):
+        out = []
+        for it in its:
+            if isinstance(it, Field):
+                out.append(Field(fn(it.key, "key"), it.op, val(it.value, "value")))
+            elif isinstance(it, Param):
+                out.append(Param(it.name, it.undefined, fn(it.body, "pvalue") if isinstance(it.body, S) else items(it.body)))
+            else:
+                out.append(it)
+        return out
+    return Doc(items(doc.items))
+
+
 def callable_doc(doc):
     """does doc only use constructs the call API can express?"""
     def ok_v(v):
